@@ -195,7 +195,7 @@ def enumeration_job(oc, jb, repo, seed, tier, stats):
       "Enumeration: for every image of the catalogue of harness/reader_rec.cpp (every family x kind: empty / single / exact / estimating, every "
       "HLL mode x type x compact/updatable, every CPC flavor, Theta v1-v4 + wrapped, item types incl. std::string, var_opt union, t-digest with/without "
       "buffer and both reference formats, Bloom incl. wrap / writable_wrap) every prefix length 0..size-1 on every path and every preamble byte x "
-      "{0,1,2,3,4,8,16,32,64,0x7f,0x80,200,254,0xff,v-1,v+1,v-2,v+2,v/2,2v} (thorough: all 255 other values, larger catalogue, and the quick enumeration again under AddressSanitizer); "
+      "{0,1,2,3,4,8,16,32,64,0x7f,0x80,200,254,0xff,v-1..v-4,v+1..v+3,v/2,2v} (thorough: all 255 other values, larger catalogue, and the quick enumeration again under AddressSanitizer); "
       "one logged outcome per attempt, each validated by TLC against the contract's Attempt action. "
       "evaluations = attempts validated; traces = images (segments) with no forbidden outcome; "
       "distinct_nontrivial = distinct (family, kind, path, mode, position[, build]) attempts that were NOT a plain early Throw at the first size check, "
